@@ -94,7 +94,7 @@ class ThermalProp(TdMpsJob):
 
     def evolve_exact(self, old_mpdm: MpDm, evolve_dt):
         MPOprop = Mpo.exact_propagator(
-            old_mpdm.model, evolve_dt.imag, space=self.space, shift=-self.energies[-1]
+            self.h_mpo.model, evolve_dt.imag, space=self.space, shift=-self.energies[-1]
         )
         new_mpdm = MPOprop.apply(old_mpdm, canonicalise=True)
         # partition function can't be obtained. It's not practical anyway.
